@@ -1,0 +1,75 @@
+//go:build verif
+
+package systemSmartContracts
+
+// Contracts for govc (/verif). Comment-only file: no executable code, not part of the default build.
+
+/*@
+// C41 — token identifiers are unique and well-formed (TICKER-xxxxxx)
+
+spec fn tickerChar(c byte) bool = (65 <= c && c <= 90) || (48 <= c && c <= 57)
+spec fn lowerHex(c byte) bool = (48 <= c && c <= 57) || (97 <= c && c <= 102)
+
+func isTickerValid(tickerName []byte) (r bool)
+  pure
+  ensures valid-means-well-formed: r ==> 3 <= len(tickerName) && len(tickerName) <= 10 && (forall k :: 0 <= k && k < len(tickerName) ==> tickerChar(tickerName[k]))
+  ensures well-formed-means-valid: 3 <= len(tickerName) && len(tickerName) <= 10 && (forall k :: 0 <= k && k < len(tickerName) ==> tickerChar(tickerName[k])) ==> r
+
+loop 1
+  invariant -1 <= rangeindex && rangeindex < len(tickerName)
+  invariant forall k :: 0 <= k && k <= rangeindex ==> tickerChar(tickerName[k])
+
+// ---- environment (interface-level contracts = assumptions) -------------------------------------------------------
+// storedLen(eei, key): length of what the system-SC storage holds under the key CONTENT. It does not depend on the heap,
+// so this model is only valid for code that does not write storage (no SetStorage between two reads): verify functions
+// that call SetStorage against another contract.
+spec fn storedLen(eei vm.SystemEI, key string) int
+  axiom storedLen(eei, key) >= 0
+
+func (eei vm.SystemEI) GetStorage(key []byte) (r []byte)
+  ensures  reads-storage: len(r) == storedLen(eei, str(key))
+  assigns  nothing
+
+func (eei vm.SystemEI) BlockChainHook() (r vm.BlockchainHook)
+  pure
+  ensures  hook-present: r != nil
+
+func (h vm.BlockchainHook) CurrentRandomSeed() (r []byte)
+  pure
+
+func (h hashing.Hasher) Compute(s string) (r []byte)
+  pure
+  ensures  hash-has-three-bytes: len(r) >= 3
+
+// ---- identifier generation ----------------------------------------------------------------------------------------
+func (e *esdt) createNewTokenIdentifier(caller []byte, ticker []byte) (r []byte, err error)
+  requires collaborators-present: e.eei != nil && e.hasher != nil
+  requires caller-and-ticker-in-separate-buffers: base(caller) != base(ticker)
+  ensures  failure-returns-nil: err != nil ==> isNil(r)
+  ensures  ticker-prefix: err == nil ==> len(r) > len(ticker) && r[len(ticker)] == 45 && (forall k :: 0 <= k && k < len(ticker) ==> r[k] == old(ticker[k]))
+  ensures  six-hex-digits: err == nil ==> len(r) == len(ticker) + 7
+  ensures  at-least-six-hex-digits: err == nil ==> len(r) >= len(ticker) + 7
+  ensures  hex-suffix: err == nil ==> (forall k :: len(ticker) < k && k < len(r) ==> lowerHex(r[k]))
+  ensures  unused: err == nil ==> storedLen(e.eei, str(r)) == 0
+  ensures  caller-kept: str(caller) == old(str(caller))
+  ensures  ticker-kept: str(ticker) == old(str(ticker))
+  assigns  elems(caller), elems(ticker)
+
+loop 1
+  invariant 0 <= i && i <= 50
+  invariant 0 <= big(newRandomAsBigInt) - i && big(newRandomAsBigInt) - i < 16777216
+  invariant big(one) == 1
+  invariant base(tickerPrefix) != base(caller) && (base(tickerPrefix) == base(ticker) ==> off(tickerPrefix) == off(ticker)) && len(tickerPrefix) == len(ticker) + 1
+  invariant forall k :: 0 <= k && k < len(ticker) ==> tickerPrefix[k] == old(ticker[k])
+  invariant tickerPrefix[len(ticker)] == 45
+  invariant str(caller) == old(str(caller))
+  invariant str(ticker) == old(str(ticker))
+  decreases 50 - i
+
+// a fresh identifier differs from every key that holds a token (issuance stores the token under its identifier)
+lemma new-identifier-differs-from-issued
+  vars e *esdt, caller []byte, ticker []byte, issued string
+  hyp  e.eei != nil && e.hasher != nil && base(caller) != base(ticker) && storedLen(e.eei, issued) > 0
+  call r, err = e.createNewTokenIdentifier(caller, ticker)
+  concl differs: err == nil ==> str(r) != issued
+@*/
